@@ -22,7 +22,7 @@ extern "C" {
 /* reader kinds */
 enum { VR_INT32, VR_UINT32, VR_INT64, VR_UINT64, VR_FLOAT, VR_DOUBLE, VR_BOOL, VR_CHOICE, VR_NUMBER,
        VR_CHARS, VR_COPYTEXT, VR_BLOCK, VR_RAW, VR_ARR_INT32, VR_ARR_UINT32, VR_ARR_INT64, VR_ARR_UINT64,
-       VR_ARR_FLOAT, VR_ARR_DOUBLE, VR_EXPR, VR__N };
+       VR_ARR_FLOAT, VR_ARR_DOUBLE, VR_EXPR, VR_RAW_CHOICE /* RAW + SCPI_ParamToChoice (may queue -224/-104) */, VR__N };
 extern const char * const vh_reader_names[VR__N];
 typedef struct { uint8_t kind, mandatory; uint16_t cap; } vh_step_t;
 
